@@ -147,6 +147,13 @@ def _crn_input(case, H):
         for u, v, d in G.edges(data=True):
             G2.add_edge(u, v, **d)
         G = G2
+    if case.get("frac") and mode in ("bip", "und"):
+        # fractional coefficients on a caller-supplied graph (1/2 O2 ...): positive, so every siphon / trap answer is unchanged
+        import random
+        fr = random.Random(case["frac"])
+        for _, _, d in G.edges(data=True):
+            if "stoich" in d:
+                d["stoich"] = d["stoich"] * fr.choice([0.5, 1.5, 0.25, 1, 0.75])
     if case.get("junk") and mode == "bip":
         # things the code must ignore: a node without attributes, nodes with foreign attribute values, a species-species edge, a
         # role-less and a foreign-role incidence, an edge from an unclassified node to a reaction
@@ -213,6 +220,13 @@ def _impl_net(case):
             conv(ST.find_siphons(crn, max_size=k)), conv(ST.find_traps(crn, max_size=k)),
             [S(sorted(m)) for m in mins],
             [pv(), pv(max_siphon_size=k)]]
+
+
+def _times4(c):
+    from fractions import Fraction
+    f = Fraction(c) * 4
+    assert f.denominator == 1, c
+    return int(f)
 
 
 def _persist_supports(case):
@@ -751,7 +765,8 @@ def coq_case(case):
             arcs = ["(RArc %s %s %s %s)" % (
                 cnat(nid[u]), cnat(nid[v]),
                 "(Some Reactant)" if a.get("role") == "reactant" else "(Some Product)" if a.get("role") == "product" else "None",
-                "(Some %s)" % cZ(int(a["stoich"])) if "stoich" in a else "None") for u, v, a in G.edges(data=True)]
+                # (coefficients may be fractional multiples of 1/4: handed over times 4, exactly — only their sign is read)
+                "(Some %s)" % cZ(_times4(a["stoich"])) if "stoich" in a else "None") for u, v, a in G.edges(data=True)]
             return "%s (RG %s %s) %s %s %s" % (
                 "run_net_raw" if case["mode"] == "bip" else "run_net_raw_und", clist(nodes), clist(arcs), cnat(case.get("k", n)),
                 clist([clist([cnat(i) for i in c]) for c in case.get("cands", [])]),
@@ -1571,6 +1586,8 @@ def gen_random_nets(n, rng):
             c["int_ids"] = False
         if c["mode"] == "bip" and rng.random() < 0.4:
             c["junk"] = rng.randrange(1, 10 ** 6)
+        if c["mode"] != "hg" and not c.get("no_stoich") and rng.random() < 0.25 and all(cc <= 3 for l_, r_ in rx for _, cc in l_ + r_):
+            c["frac"] = rng.randrange(1, 10 ** 6)
         nsp = len(_all_species(c))
         c["k"] = rng.randint(0, nsp + 1)
         nc = rng.randint(0, 7)
